@@ -163,6 +163,18 @@ def run(tier, seed, replay=None):
             st.update({"runs": 2, "starts": 2})
         meta[str(i)] = (inp, opts, kind)
         blocks.append((str(i), GF.case_lines(inp, opts, st)))
+    # every malformed kind in turn (the general stream draws a kind at random: 100 mutated inputs over some forty kinds)
+    kinds_in_turn = ["window_junk", "time_before_epoch", "huge_max_duration", "far_future_window", "huge_penalty", "null_in_resource_map",
+                     "empty_duration_groups", "negative_matrix_entry", "initial_foreign_alternate", "precedes_alternate", "stop_alt_same_id",
+                     "null_scalars", "matrix_vehicle_ghost"]
+    per_kind = 8 if tier == "quick" else 150
+    for kname in kinds_in_turn:
+        for j in range(per_kind):
+            base, opts, feats = GF.gen_full(rng, "small")
+            inp, kind = GF.mutate(rng, base, only=kname)
+            cid = "k%s%d" % (kname, j)
+            meta[cid] = (inp, opts, kind)
+            blocks.append((cid, GF.case_lines(inp, opts, dict(settings))))
     # structure stream: model building dominates (few iterations); precedence DAGs whose relations open several
     # chains and join them later, with groups / initial stops / alternates on top
     n2 = 1500 if tier == "quick" else 20000
